@@ -109,6 +109,8 @@ MutateCell == \E c \in Cols, f \in AllFields : \E k \in ClassesOf(f) :
   /\ ~(k \in {"qm_ok", "qm_short", "qm_long"} /\ Big \in {DepthVal(c, "dwt_depth"), DepthVal(c, "dwt_depth_ho")})
   /\ ~(k = "dupname" /\ B.ncols < 2)
   /\ cells[c][f] = "keep"
+  \* a matrix written for the current depths is not followed by a change of the depths (the other order is explored)
+  /\ ~(f \in {"dwt_depth", "dwt_depth_ho"} /\ cells[c]["quantization_matrix"] \in {"qm_ok", "qm_short", "qm_long"})
   /\ cells' = [cells EXCEPT ![c][f] = k]
   /\ UNCHANGED <<file, struct>>
   /\ inp' = [m |-> "cell", c |-> c, f |-> f, k |-> k, arg |-> ArgOf(c, f, k)]
